@@ -42,6 +42,13 @@ pub fn run(prop: &str, req: &str, rep: &str, outfile: &str) {
                     // the string-capacity panic is a recorded finding of C20; anything else is new
                     fail(&mut fails, i, q, r, "a call on a package opened from this input panicked".into());
                 }
+                if q.starts_with("@ffi_check") {
+                    if r.starts_with("abort") {
+                        fail(&mut fails, i, q, r, "the C interface (get_information / get_table) aborted the process on this file: a panic inside an extern function".into());
+                    } else if r.starts_with("mismatch") {
+                        fail(&mut fails, i, q, r, "the C interface reports something else than the Rust API for this file".into());
+                    }
+                }
                 if q.starts_with("load ") || q.starts_with("@open_bytes") {
                     nontrivial.insert(format!("{}", q.len() as u64 * 31 + i as u64 % 7));
                 }
